@@ -31,7 +31,7 @@ ASSUMPTIONS = [
 ]
 BOUNDS = {"quick": {"k": 1}, "thorough": {"k": 2}}
 
-HOSTILE = (b"", b"A", b"\\", b'"', b"'", b"\x00", b"\x80\xff", b"\n", b";#{}", b"a\\", b'\\"', b"k=v", b"Host: x")
+HOSTILE = (b"", b"A", b"\\", b'"', b"'", b"\x00", b"\x80\xff", b"\n", b";#{}", b"a\\", b'\\"', b"k=v", b"Host: x", b"\\'", b"path\\'s", b"'\"", b"\\\\'", b"\t\r")
 
 
 def progs_get():
